@@ -83,6 +83,8 @@ std::string blocked_threads() {
     for (auto *t : thr) if (t->st != FINISHED && t->id != 0) { char b[96]; snprintf(b, sizeof b, " t%d(role %s: %s)", t->id, t->role == ROLE_WORKER ? "worker" : "submitter", names[t->st]); who += b; }
     return who;
 }
+// is the main thread parked in a wait that only other threads can end (condition wait or join)?
+bool main_waiting() { return !thr.empty() && (thr[0]->st == BLOCKED_COND || thr[0]->st == BLOCKED_JOIN); }
 bool others_finished() { for (auto *t : thr) if (t->id != 0 && t->st != FINISHED) return false; return true; }
 
 // hand the run token to the next thread; returns when the calling thread owns it again
